@@ -66,7 +66,7 @@ class Part:
         thorough: int = 1000,
         tiers=("quick", "thorough"),
         shards: Optional[int] = None,
-        shrink_budget: float = 45.0,
+        shrink_budget: float = 20.0,
         setup: Optional[Callable] = None,
         teardown: Optional[Callable] = None,
     ):
@@ -202,26 +202,18 @@ def run_strategy_part(ctx: Ctx, part: Part, part_index: int, budget: int):
     import hypothesis
     from hypothesis import HealthCheck, Phase, given, settings
 
+    import hypothesis.internal.conjecture.engine as hengine
+
+    # Hypothesis caps shrinking at 300 s; candidates are expensive here, so the cap is
+    # lowered per part (the replay is then "small", not necessarily minimal)
+    hengine.MAX_SHRINKING_SECONDS = part.shrink_budget
     found = []
-    for round_ in range(4):
-        done_before = ctx.evaluations
-        state = {"t_fail": None, "failing": set()}
+    for round_ in range(3):
 
         def test(case):
-            frozen = state["t_fail"] is not None and (time.time() - state["t_fail"]) > part.shrink_budget
-            if frozen and digest(case) not in state["failing"]:
-                return  # shrink budget exhausted: let the shrinker terminate
-            try:
-                _run_prop(ctx, part, case)
-            except Violation:
-                if state["t_fail"] is None:
-                    state["t_fail"] = time.time()
-                state["failing"].add(digest(case))
-                raise
+            _run_prop(ctx, part, case)
 
-        remaining = max(1, budget - (ctx.evaluations - done_before if round_ == 0 else 0))
-        if round_ > 0:
-            remaining = max(1, budget // 2)
+        remaining = budget if round_ == 0 else max(1, budget // 2)
         wrapped = hypothesis.seed(_hyp_seed(ctx, part_index, round_))(
             settings(
                 max_examples=remaining,
